@@ -19,6 +19,7 @@
 #include "vm.h"
 #include "vm_ffi.h"
 #include "../nanoisa/nvm_format.h"
+#include "../nanoisa/verifier.h"
 
 #include <stdio.h>
 #include <stdlib.h>
@@ -205,6 +206,14 @@ static void *client_thread(void *arg) {
 
         if (!module) {
             vmd_msg_send_error(fd, "Invalid .nvm format");
+            break;
+        }
+
+        /* Verify bytecode safety before execution (as nano_vm and nano_virt do) */
+        NvmVerifyResult vr = nvm_verify(module);
+        if (!vr.ok) {
+            vmd_msg_send_error(fd, "Bytecode verification failed");
+            nvm_module_free(module);
             break;
         }
 
